@@ -14,6 +14,13 @@
 //   - write = the selector is (the in-place root of) an assignment target, ++/--, delete(), copy()
 //     destination, or the receiver of a pointer-receiver method call on a struct-valued field;
 //     everything else is a read. *p for a tracked struct pointer p reads (or writes) every field.
+//   - alias escape: a by-value copy of guarded state whose type contains maps, slices or pointers to
+//     untracked module types (a struct-valued field such as IRCServer.Config, *p of a tracked struct,
+//     or a map/slice below them) shares that storage with the original.  When the copy is returned, or
+//     used after a lock that was held at the copy has been released, the scanner emits an additional
+//     READ entry for the field ("alias": true) with the locks held at that later point, so that the
+//     ordinary discipline decides.  Overwriting the reference fields of a copied tracked struct
+//     (GetSessions) removes them from the copy's shared set.  Call results are opaque.
 //   - locks are named "T.field" (mutex stored in a field of named struct T) or "pkg.var".
 //     Lock/RLock/Unlock/RUnlock are followed flow-sensitively through straight-line code,
 //     if/else, switch, select and loops; `defer X.Unlock()` means: held to the end.
@@ -152,6 +159,7 @@ type Access struct {
 	Fresh   bool // through a not-yet-published local allocated in this function
 	ViaRecv bool // base identifier is the receiver of the enclosing method
 	Startup bool // in main() before its first go statement
+	Alias   bool // not a syntactic access: a shallow copy of the field is used/returned here, after its critical section
 }
 
 type CallSite struct {
@@ -316,6 +324,286 @@ type walker struct {
 	fresh    map[*types.Var]token.Pos // fresh local -> position at which it is published
 	inDefer  bool
 	deferred map[string]bool // locks whose Unlock is deferred (held to the end of the function)
+	tainted  map[*types.Var]*taint
+}
+
+// taint: a local variable holds a by-value (shallow) copy of guarded state whose type contains maps,
+// slices or pointers to untracked module types; the copy shares that storage with the original.
+type taint struct {
+	fields     map[string]bool // guarded fields whose storage is shared
+	heldAtCopy Held            // locks held locally when the copy was made
+}
+
+func inModule(n *types.Named) bool {
+	return n.Obj().Pkg() != nil && (n.Obj().Pkg().Path() == modPath || strings.HasPrefix(n.Obj().Pkg().Path(), modPath+"/"))
+}
+
+// sharesRefs: a by-value copy of a t still shares mutable storage with the original: maps, slices,
+// pointers to untracked module types or to unnamed types.  Pointers to tracked structs are followed by
+// the type-based access rule; pointers to types of other modules (leveldb.DB, raft.Raft, time.Location,
+// regexp.Regexp, sync.*) are treated as internally synchronised / immutable.
+func sharesRefs(t types.Type, seen map[types.Type]bool) bool {
+	if t == nil || seen[t] {
+		return false
+	}
+	seen[t] = true
+	switch u := t.(type) {
+	case *types.Named:
+		return sharesRefs(u.Underlying(), seen)
+	case *types.Map, *types.Slice:
+		return true
+	case *types.Pointer:
+		if _, ok := trackedStructName(u); ok {
+			return false
+		}
+		if n, ok := u.Elem().(*types.Named); ok {
+			return inModule(n)
+		}
+		return true
+	case *types.Struct:
+		for i := 0; i < u.NumFields(); i++ {
+			if sharesRefs(u.Field(i).Type(), seen) {
+				return true
+			}
+		}
+	case *types.Array:
+		return sharesRefs(u.Elem(), seen)
+	}
+	return false
+}
+
+// guardedRoot: e is an in-place path (selectors on struct values) at or below a guarded field
+func (w *walker) guardedRoot(e ast.Expr) string {
+	sel, ok := stripParens(e).(*ast.SelectorExpr)
+	if !ok {
+		return ""
+	}
+	if name, _, ok := w.fieldOf(sel); ok {
+		return name
+	}
+	if selinfo, ok := w.info.Selections[sel]; ok && selinfo.Kind() == types.FieldVal && !selinfo.Indirect() {
+		return w.guardedRoot(sel.X)
+	}
+	return ""
+}
+
+// copySource: evaluating e yields a by-value copy of guarded state that shares storage with it
+func (w *walker) copySource(e ast.Expr) map[string]bool {
+	e = stripParens(e)
+	tv, ok := w.info.Types[e]
+	if !ok || !sharesRefs(tv.Type, map[types.Type]bool{}) {
+		return nil
+	}
+	switch x := e.(type) {
+	case *ast.StarExpr:
+		if ptv, ok := w.info.Types[x.X]; ok {
+			if name, ok := trackedStructName(ptv.Type); ok {
+				if _, isPtr := ptv.Type.Underlying().(*types.Pointer); isPtr {
+					tt, _ := deref(ptv.Type)
+					st := tt.Underlying().(*types.Struct)
+					r := map[string]bool{}
+					for i := 0; i < st.NumFields(); i++ {
+						if !isValueSyncField(st.Field(i)) && sharesRefs(st.Field(i).Type(), map[types.Type]bool{}) {
+							r[name+"."+st.Field(i).Name()] = true
+						}
+					}
+					return r
+				}
+			}
+		}
+	case *ast.SelectorExpr:
+		if f := w.guardedRoot(x); f != "" {
+			return map[string]bool{f: true}
+		}
+	}
+	return nil
+}
+
+func (w *walker) localVar(id *ast.Ident) *types.Var {
+	var o types.Object = w.info.Uses[id]
+	if o == nil {
+		o = w.info.Defs[id]
+	}
+	v, ok := o.(*types.Var)
+	if !ok || v.IsField() || v.Pkg() == nil || v.Parent() == v.Pkg().Scope() {
+		return nil
+	}
+	return v
+}
+
+// valueTaint: the guarded fields whose storage the value of e shares (call results are opaque)
+func (w *walker) valueTaint(e ast.Expr) (map[string]bool, Held) {
+	out := map[string]bool{}
+	var held Held
+	var visit func(e ast.Expr)
+	add := func(f map[string]bool, h Held) {
+		for k := range f {
+			out[k] = true
+		}
+		if held == nil {
+			held = h
+		}
+	}
+	visit = func(e ast.Expr) {
+		e = stripParens(e)
+		if src := w.copySource(e); src != nil {
+			add(src, w.held.clone())
+			return
+		}
+		switch x := e.(type) {
+		case *ast.Ident:
+			if v := w.localVar(x); v != nil {
+				if t := w.tainted[v]; t != nil {
+					add(t.fields, t.heldAtCopy)
+				}
+			}
+		case *ast.UnaryExpr:
+			if x.Op == token.AND {
+				visit(x.X)
+			}
+		case *ast.SelectorExpr:
+			if id, ok := stripParens(x.X).(*ast.Ident); ok {
+				if v := w.localVar(id); v != nil {
+					if t := w.tainted[v]; t != nil {
+						if tv, ok := w.info.Types[x]; ok && sharesRefs(tv.Type, map[types.Type]bool{}) {
+							one := map[string]bool{}
+							if name, ok := trackedStructName(v.Type()); ok && t.fields[name+"."+x.Sel.Name] {
+								one[name+"."+x.Sel.Name] = true
+								add(one, t.heldAtCopy)
+							} else if !ok {
+								add(t.fields, t.heldAtCopy)
+							}
+						}
+					}
+				}
+			}
+		case *ast.CompositeLit:
+			for _, el := range x.Elts {
+				if kv, ok := el.(*ast.KeyValueExpr); ok {
+					visit(kv.Value)
+				} else {
+					visit(el)
+				}
+			}
+		case *ast.CallExpr:
+			if id, ok := stripParens(x.Fun).(*ast.Ident); ok && id.Name == "append" {
+				if _, ok := w.info.Uses[id].(*types.Builtin); ok {
+					for _, a := range x.Args {
+						visit(a)
+					}
+				}
+			}
+		}
+	}
+	visit(e)
+	if len(out) == 0 {
+		return nil, nil
+	}
+	return out, held
+}
+
+func (w *walker) recordAlias(fields map[string]bool, local Held, pos token.Pos) {
+	var fs []string
+	for f := range fields {
+		fs = append(fs, f)
+	}
+	sort.Strings(fs)
+	for _, f := range fs {
+		w.fn.Accesses = append(w.fn.Accesses, Access{Field: f, Local: local.clone(), Pos: pos, Alias: true})
+	}
+}
+
+// useTainted: a use of the tainted copy v that can reach the shared storage; an alias escape if a lock
+// that was held when the copy was made has been released in the meantime
+func (w *walker) useTainted(v *types.Var, only string, pos token.Pos) {
+	t := w.tainted[v]
+	if t == nil {
+		return
+	}
+	released := false
+	for l := range t.heldAtCopy {
+		if _, still := w.held[l]; !still {
+			released = true
+		}
+	}
+	if !released {
+		return
+	}
+	if only != "" {
+		if t.fields[only] {
+			w.recordAlias(map[string]bool{only: true}, w.held, pos)
+		}
+		return
+	}
+	w.recordAlias(t.fields, w.held, pos)
+}
+
+// assignTaint: bookkeeping for `l = r` (also :=, var, container stores)
+func (w *walker) assignTaint(l, r ast.Expr) {
+	l = stripParens(l)
+	var fields map[string]bool
+	var held Held
+	if r != nil {
+		fields, held = w.valueTaint(r)
+	}
+	// overwriting one reference field of a copied tracked struct: that field is no longer shared
+	if sel, ok := l.(*ast.SelectorExpr); ok {
+		if id, ok := stripParens(sel.X).(*ast.Ident); ok {
+			if v := w.localVar(id); v != nil {
+				if t := w.tainted[v]; t != nil && fields == nil {
+					if name, ok := trackedStructName(v.Type()); ok {
+						delete(t.fields, name+"."+sel.Sel.Name)
+						if len(t.fields) == 0 {
+							delete(w.tainted, v)
+						}
+					}
+					return
+				}
+			}
+		}
+	}
+	// destination variable: the identifier itself or the root of a container/field store
+	root := l
+	whole := true
+	for {
+		switch x := root.(type) {
+		case *ast.IndexExpr:
+			root, whole = stripParens(x.X), false
+			continue
+		case *ast.SelectorExpr:
+			root, whole = stripParens(x.X), false
+			continue
+		case *ast.StarExpr:
+			root, whole = stripParens(x.X), false
+			continue
+		}
+		break
+	}
+	id, ok := root.(*ast.Ident)
+	if !ok {
+		return
+	}
+	v := w.localVar(id)
+	if v == nil {
+		if fields != nil {
+			w.s.note(l.Pos(), "a shallow copy of guarded state is stored into non-local storage (alias not followed)")
+		}
+		return
+	}
+	if fields == nil {
+		if whole {
+			delete(w.tainted, v)
+		}
+		return
+	}
+	t := w.tainted[v]
+	if t == nil || whole {
+		t = &taint{fields: map[string]bool{}, heldAtCopy: held}
+		w.tainted[v] = t
+	}
+	for f := range fields {
+		t.fields[f] = true
+	}
 }
 
 func (w *walker) isStartup(p token.Pos) bool { return false } // decided after all functions are walked
@@ -485,12 +773,28 @@ func (w *walker) expr(e ast.Expr) {
 			w.record(g, false, x.Pos(), nil)
 		}
 		w.funcValue(x, x)
+		if v := w.localVar(x); v != nil && w.tainted[v] != nil {
+			w.useTainted(v, "", x.Pos())
+		}
 	case *ast.BasicLit:
 	case *ast.ParenExpr:
 		w.expr(x.X)
 	case *ast.SelectorExpr:
 		if name, _, ok := w.fieldOf(x); ok {
 			w.record(name, false, x.Sel.Pos(), x.X)
+		}
+		if id, ok := stripParens(x.X).(*ast.Ident); ok && w.info.Selections[x] != nil && w.info.Selections[x].Kind() == types.FieldVal {
+			if v := w.localVar(id); v != nil && w.tainted[v] != nil {
+				// a field of a tainted copy: only reference-carrying parts reach the shared storage
+				if tv, ok := w.info.Types[x]; ok && sharesRefs(tv.Type, map[types.Type]bool{}) {
+					only := ""
+					if name, ok := trackedStructName(v.Type()); ok {
+						only = name + "." + x.Sel.Name
+					}
+					w.useTainted(v, only, x.Sel.Pos())
+				}
+				return
+			}
 		}
 		if _, isSel := w.info.Selections[x]; isSel {
 			w.expr(x.X)
@@ -1089,6 +1393,15 @@ func (w *walker) stmt(st ast.Stmt) bool {
 				w.noteFresh(x.Lhs[i], x.Rhs[i], w.fn.Body.End())
 			}
 		}
+		if len(x.Lhs) == len(x.Rhs) {
+			for i := range x.Lhs {
+				w.assignTaint(x.Lhs[i], x.Rhs[i])
+			}
+		} else {
+			for i := range x.Lhs {
+				w.assignTaint(x.Lhs[i], nil)
+			}
+		}
 		return false
 	case *ast.GoStmt:
 		w.publishBareUses(x.Call)
@@ -1100,6 +1413,18 @@ func (w *walker) stmt(st ast.Stmt) bool {
 		return false
 	case *ast.ReturnStmt:
 		w.exprs(x.Results)
+		// a shallow copy of guarded state that is returned outlives every lock taken in this function
+		for _, r := range x.Results {
+			if fields, _ := w.valueTaint(r); fields != nil {
+				left := Held{}
+				for l, m := range w.held {
+					if !w.deferred[l] {
+						left[l] = m
+					}
+				}
+				w.recordAlias(fields, left, r.Pos())
+			}
+		}
 		return true
 	case *ast.BranchStmt:
 		return x.Tok != token.FALLTHROUGH
@@ -1114,6 +1439,7 @@ func (w *walker) stmt(st ast.Stmt) bool {
 					if len(vs.Names) == len(vs.Values) {
 						for i := range vs.Names {
 							w.noteFresh(vs.Names[i], vs.Values[i], w.fn.Body.End())
+							w.assignTaint(vs.Names[i], vs.Values[i])
 						}
 					}
 				}
@@ -1455,7 +1781,7 @@ func (s *Scanner) walkAll() {
 		if fn.Body == nil {
 			continue
 		}
-		w := &walker{s: s, fn: fn, info: fn.Pkg.TypesInfo, held: Held{}, fresh: map[*types.Var]token.Pos{}, deferred: map[string]bool{}}
+		w := &walker{s: s, fn: fn, info: fn.Pkg.TypesInfo, held: Held{}, fresh: map[*types.Var]token.Pos{}, deferred: map[string]bool{}, tainted: map[*types.Var]*taint{}}
 		if !w.stmts(fn.Body.List) {
 			for l := range w.held {
 				if !w.deferred[l] {
@@ -1602,6 +1928,7 @@ type Entry struct {
 	Kind  string      `json:"kind"`
 	Held  [][2]string `json:"held"`
 	Pos   []string    `json:"pos"`
+	Alias bool        `json:"alias,omitempty"`
 }
 
 type Exempt struct {
@@ -1674,10 +2001,10 @@ func (s *Scanner) output(outJSON, outV string) {
 			}
 			held := union(f.Entry, a.Local)
 			hl := held.list()
-			key := f.ID + "|" + a.Field + "|" + kind + "|" + fmt.Sprint(hl)
+			key := f.ID + "|" + a.Field + "|" + kind + "|" + fmt.Sprint(hl) + fmt.Sprint(a.Alias)
 			e, ok := entries[key]
 			if !ok {
-				e = &Entry{Fn: f.ID, File: f.File, Func: f.Name, Field: a.Field, Kind: kind, Held: hl}
+				e = &Entry{Fn: f.ID, File: f.File, Func: f.Name, Field: a.Field, Kind: kind, Held: hl, Alias: a.Alias}
 				entries[key] = e
 				order = append(order, key)
 			}
